@@ -48,8 +48,10 @@ def build_miter(
         pairwise_xor.inputs,
         name=PAIRWISE_XOR_NAME,
     )
+    xor_outputs = tuple(miter.get_block(PAIRWISE_XOR_NAME).outputs)
+    # OR gate needs at least two operands, single difference bit is just forwarded.
     miter.emplace_gate(
-        OR_NAME, gate.OR, tuple(miter.get_block(PAIRWISE_XOR_NAME).outputs)
+        OR_NAME, gate.OR if len(xor_outputs) != 1 else gate.IFF, xor_outputs
     )
     miter.set_outputs([OR_NAME])
 
